@@ -6,10 +6,15 @@
    [hyp E f] = the file is shorter than 2^31 bytes; E is the code as it is NOW (cfg_fixed: the fixes C09_1 .. C09_5 and
    C08_12 are in /repo; this is the configuration the correspondence of checks/C09.py ties to the real loaders); its
    fuel exceeds |f|; its allocation cap is not below the proved bound.
+   Every fix of fixes/C09_1 .. C09_17 is committed in /repo: all the theorems down to C09_csv speak about the code as it is now;
+   the files that broke the readers before each fix are kept as regression cases (C09_regression_*: the reader models before
+   the fixes still fail on them, the check replays them on the real loaders and recognises the old failure if a fix is reverted).
+   Only C09_csv_no_exception and C09_pending_* speak about readers WITH proposed fixes (fixes/C09_18 .. C09_22).
    The statements quantify over ALL byte strings f. *)
 From Coq Require Import List ZArith QArith Bool.
-From Gst Require Import C09.Model C09.Readers C09.Spec C09.Witness C09.Proofs_prim C09.Proofs_loc C09.Proofs_wf C09.Proofs_top
-                        C09.Proofs_refute C09.Proofs_main.
+From Gst Require Import C09.Model C09.Readers C09.Readers2 C09.Readers3 C09.Readers4 C09.Spec C09.Witness C09.Proofs_prim C09.Proofs_loc
+                        C09.Proofs_wf C09.Proofs_top C09.Proofs_refute C09.Proofs_main C09.Proofs2_top C09.Proofs2_refute
+                        C09.Proofs3_csv C09.Proofs4.
 Import ListNotations.
 Local Open Scope Z_scope.
 
@@ -52,6 +57,130 @@ Print Assumptions C09_wellformed.
 Corollary C09_prefix_closed : forall E f n, hyp E (firstn n f) -> all_loaders (fun A o => clean o) E (firstn n f).
 Proof. exact main_all_prefix. Qed.
 Print Assumptions C09_prefix_closed.
+
+(* ---------------------------------------------------------------- second wave: Rule, AnamHermite, Neigh family, Vario, Model
+   good_outcome wf b o  :=  clean o (no OOB, no exception, no exhausted fuel) /\ 0 <= ghost_of o <= b /\ forall a, loaded o a -> wf a.
+   full_env = the code as it is now: now_env + the fixes/C09_11 (Rule), C09_12 (ANeigh), C09_13 (Vario), C09_14 (Model), all in /repo
+   (e_prop E = p_all). What the readers did before these fixes is in C09_regression_before_C09_11_14 below. *)
+Theorem C09_anamhermite : forall E f, flen f < 2147483648 -> now_env E f (alloc_bound (flen f)) ->
+  good_outcome wf_anamh (alloc_bound (flen f)) (load_AnamHermite E f).
+Proof. exact P_anamh. Qed.
+Print Assumptions C09_anamhermite.
+Theorem C09_rule : forall E f, flen f < 2147483648 -> full_env E f (alloc_bound (flen f)) ->
+  good_outcome wf_rule (alloc_bound (flen f)) (load_Rule E f).
+Proof. exact P_rule. Qed.
+Print Assumptions C09_rule.
+Theorem C09_neigh : forall E f, flen f < 2147483648 -> full_env E f (alloc_bound_grid (flen f)) ->
+  good_outcome wf_neighmoving (alloc_bound_grid (flen f)) (load_NeighMoving E f).
+Proof. exact P_neighm. Qed.
+Print Assumptions C09_neigh.
+Theorem C09_neigh_simple : forall E f, flen f < 2147483648 -> full_env E f (alloc_bound (flen f)) ->
+  good_outcome (fun nd => 0 < nd) (alloc_bound (flen f)) (load_NeighUnique E f) /\
+  good_outcome (fun p => 0 < fst p) (alloc_bound (flen f)) (load_NeighBench E f) /\
+  good_outcome (fun p => 0 < fst p) (alloc_bound (flen f)) (load_NeighCell E f).
+Proof. exact P_neighs. Qed.
+Print Assumptions C09_neigh_simple.
+Theorem C09_neighimage : forall E f, flen f < 2147483648 -> full_env E f (alloc_bound (flen f)) ->
+  good_outcome (fun p => 0 < fst (fst p) /\ zlen (snd p) = fst (fst p)) (alloc_bound (flen f)) (load_NeighImage E f).
+Proof. exact (fun E f _ H => load_NeighImage_full E f H). Qed.
+Print Assumptions C09_neighimage.
+(* allocation: 64|f|^2 + 512|f| + 8192 (per direction: vectors of ndim values, result arrays present in the file) *)
+Theorem C09_vario : forall E f, flen f < 2147483648 -> full_env E f (alloc_bound_vario (flen f)) ->
+  good_outcome wf_vario (alloc_bound_vario (flen f)) (load_Vario E f).
+Proof. exact P_vario. Qed.
+Print Assumptions C09_vario.
+(* whatever the constructors of covariances and drifts answer; allocation: 64|f|^3 + ... (ndim x ndim tensors per structure) *)
+Theorem C09_model : forall E f, flen f < 2147483648 -> forall acov adrift, full_env E f (alloc_bound_model (flen f)) ->
+  good_outcome wf_gmodel (alloc_bound_model (flen f)) (load_Model acov adrift E f).
+Proof. exact P_model. Qed.
+Print Assumptions C09_model.
+(* regression cases: the readers BEFORE fixes/C09_11 .. C09_14 on five files (Rule: null pointer table; Rule: incomplete tree returned;
+   Vario: a refused direction, results and directions no longer match; ANeigh: 48 GB requested; Model: an exception of a constructor
+   escapes), and the code as it is now on the same files (each file replayed on the real loaders by checks/C09.py) *)
+Example C09_regression_before_C09_11_14 :
+  load_Rule (before_env w_rule_root) w_rule_root = Crashed (OOB 52) /\
+  (exists r g, load_Rule (before_env w_rule_half) w_rule_half = Loaded r g /\ wf_rule_b r = false) /\
+  (exists v g, load_Vario (before_env w_vario_mixed) w_vario_mixed = Loaded v g /\ wf_vario_b v = false) /\
+  load_NeighUnique (before_env w_neigh_huge) w_neigh_huge = Crashed (Throw 1 71) /\
+  load_Model (fun _ => false) (fun _ => true) (before_env w_model_cov) w_model_cov = Crashed (Throw 4 93).
+Proof. exact before_witnesses. Qed.
+Example C09_regression_second_wave_now :
+  load_Rule (full_env_of w_rule_root) w_rule_root = Failed 40 /\
+  load_Rule (full_env_of w_rule_half) w_rule_half = Failed 80 /\
+  load_Vario (full_env_of w_vario_mixed) w_vario_mixed = Failed 368 /\
+  load_NeighUnique (full_env_of w_neigh_huge) w_neigh_huge = Failed 0 /\
+  load_Model (fun _ => false) (fun _ => true) (full_env_of w_model_cov) w_model_cov = Failed 120.
+Proof. exact now_witnesses. Qed.
+Example C09_second_wave_nonvacuous :
+  (flen w_model_cov < 2147483648 /\ full_env (full_env_of w_model_cov) w_model_cov (alloc_bound_model (flen w_model_cov))) /\
+  (exists r g, load_Rule (full_env_of v_rule) v_rule = Loaded r g /\ load_Rule (before_env v_rule) v_rule = Loaded r g /\ wf_rule_b r = true /\ ru_nnode r = 3) /\
+  (exists n g, load_NeighMoving (full_env_of v_neighmoving) v_neighmoving = Loaded n g /\ nm_ndim n = 2 /\ zlen (nm_coeffs n) = 2) /\
+  (exists v g, load_Vario (full_env_of v_vario) v_vario = Loaded v g /\ load_Vario (before_env v_vario) v_vario = Loaded v g /\ wf_vario_b v = true /\ va_ndir v = 1) /\
+  (exists x g, load_Model (fun _ => true) (fun _ => true) (full_env_of w_model_cov) w_model_cov = Loaded x g /\ gm_ncova x = 1).
+Proof. exact (conj full_env_sat valid2). Qed.
+
+(* ---------------------------------------------------------------- CSV: csv_table_read + Db::resetFromCSV (the code as it is now: fixc = true)
+   never loops (fuel |f|+1); everything built is bounded by the file (values, names, rows <= |f|; the Db array <= 2|f|); an object is
+   returned only for a full ncol x nrow table (>= 1 column, >= 1 sample; hence the copy loop tab[icol + ncol * iech] stays inside the
+   table, C09_csv_copy_in_bounds), one name per column, every name a word, names pairwise different, the uid table enumerates the
+   columns, the 29 role lists are made of distinct live columns (C09_csv_wellformed: the class invariant wf_db holds). The only exception left is std::bad_alloc out of setLocatorByUID when a column NAME carries a huge
+   rank ("x2000000000": found in this round, fixes/C09_18 proposed); with that fix nothing escapes (C09_csv_no_exception). *)
+Theorem C09_csv_total : forall E fixc fixr F f, db_from_csv E fixc fixr F f <> CsvHang.
+Proof. exact csv_total. Qed.
+Print Assumptions C09_csv_total.
+Theorem C09_csv : forall E fixr F f,
+  match db_from_csv E true fixr F f with
+  | CsvOk d => wf_csv_db d /\ d_nech d <= flen f /\ d_ncol d <= flen f + 1 /\ zlen (d_array d) <= 2 * flen f
+  | CsvFail => True
+  | CsvAlloc => fixr = false \/ e_cap E < 4 * (flen f + 2)
+  | CsvThrow | CsvHang => False
+  end.
+Proof. exact csv_spec_file. Qed.
+Print Assumptions C09_csv.
+(* wf_csv_db = the class invariant of Db (wf_db: names pairwise different included) + at least one column and one sample + names are words *)
+Theorem C09_csv_wellformed : forall d, wf_csv_db d -> wf_db d /\ Forall is_word (d_names d) /\ 0 < d_ncol d /\ 0 < d_nech d.
+Proof. exact (fun d H => conj (wf_csv_db_wf_db d H) (match H with conj a (conj b (conj _ (conj w _))) => conj w (conj a b) end)). Qed.
+Print Assumptions C09_csv_wellformed.
+Theorem C09_csv_alloc_bounded : forall fuel F f ct, csv_table_read fuel F f = Some ct ->
+  zlen (ct_tab ct) <= flen f /\ zlen (ct_names ct) <= flen f /\ 0 <= ct_nrow ct <= flen f.
+Proof. exact csv_table_read_bound. Qed.
+Print Assumptions C09_csv_alloc_bounded.
+Theorem C09_csv_copy_in_bounds : forall ntab ncol nrow icol iech, ntab = ncol * nrow -> 0 <= icol < ncol -> 0 <= iech < nrow ->
+  0 <= icol + ncol * iech < ntab.
+Proof. exact csv_copy_in_bounds. Qed.
+Theorem C09_csv_no_exception : forall E F f, alloc_bound (flen f) <= e_cap E ->
+  match db_from_csv E true true F f with CsvOk d => wf_csv_db d | CsvFail => True | _ => False end.
+Proof. exact csv_no_exception_next. Qed.
+Print Assumptions C09_csv_no_exception.
+(* the rank taken from a name: the reader as it is now throws, with fixes/C09_18 it returns the table without roles *)
+Example C09_csv_rank :
+  db_from_csv (full_env_of w_csv_rank) true false (mkCsv true 0 44 46 (-1) (-1) false) w_csv_rank = CsvAlloc /\
+  exists d, db_from_csv (full_env_of w_csv_rank) true true (mkCsv true 0 44 46 (-1) (-1) false) w_csv_rank = CsvOk d /\
+            d_ncol d = 1 /\ d_nech d = 2 /\ concat (d_loc d) = [].
+Proof. exact csv_rank_witness. Qed.
+
+(* ---------------------------------------------------------------- pending: the five readers whose counts are still unchecked
+   (AnamDiscreteDD / IR, AnamEmpirical, DbLine, MeshETurbo), WITH the guards of the proposed fixes/C09_19 .. C09_22 (coq/C09/Readers4.v; the check
+   compares these models with the implementation as soon as it shows the guards). DbLine: quadratic bound (one vector per line). *)
+Theorem C09_pending_anamdiscrete : forall E f, flen f < 2147483648 -> now_env E f (alloc_bound (flen f)) ->
+  good_outcome wf_anamdd (alloc_bound (flen f)) (load_AnamDD E f) /\
+  good_outcome (fun p => wf_anamd (fst p)) (alloc_bound (flen f)) (load_AnamIR E f).
+Proof. exact (fun E f H1 H2 => conj (load_AnamDD_guarded E f H1 H2) (load_AnamIR_guarded E f H1 H2)). Qed.
+Print Assumptions C09_pending_anamdiscrete.
+Theorem C09_pending_anamempirical : forall E f, flen f < 2147483648 -> now_env E f (alloc_bound (flen f)) ->
+  good_outcome wf_aname (alloc_bound (flen f)) (load_AnamEmpirical E f).
+Proof. exact load_AnamEmpirical_guarded. Qed.
+Print Assumptions C09_pending_anamempirical.
+(* MeshETurbo: dimension 1 .. 3, positive numbers of nodes within an int, mask ranks inside the grid; the array of an indirection is
+   requested only when the grid is in proportion with the file (e_flen E = |f|: the size of the file as _isCountInFile sees it) *)
+Theorem C09_pending_meshturbo : forall E f, flen f < 2147483648 -> now_env E f (alloc_bound (flen f)) -> e_flen E = flen f ->
+  good_outcome wf_mturbo (alloc_bound (flen f)) (load_MeshETurbo E f).
+Proof. exact load_MeshETurbo_guarded. Qed.
+Print Assumptions C09_pending_meshturbo.
+Theorem C09_pending_dbline : forall E f, flen f < 2147483648 -> fixed_env E f (alloc_bound_grid (flen f)) ->
+  good_outcome wf_dbline (alloc_bound_grid (flen f)) (load_DbLine E f).
+Proof. exact load_DbLine_guarded. Qed.
+Print Assumptions C09_pending_dbline.
 
 (* _recordRead, in any configuration: returns, consumes a suffix, allocates nothing *)
 Theorem C09_recordRead_total : forall m, reads m (record_word m).
